@@ -12,12 +12,25 @@ RULE = ("exhaustive walk of the decoder's own decision tree (a node is expanded 
         "full in {False,True} x the three naming modes. find_key on every table sequence alone, x every next byte "
         "(3 encodings) and x every table sequence; scalar values: boundaries + 20k seeded sample (thorough: all "
         "1 112 064) followed by 6 different continuations; seeded streams of recognised sequences and characters "
-        "and of arbitrary bytes under every encoding and mode; the real find_key closure of Input._send on a "
-        "sample. non-trivial = distinct (operation, encoding, mode, full, bytes) with at least 2 bytes or a "
+        "and of arbitrary bytes under every encoding and mode, each also through the real find_key closure of "
+        "Input._send; 9 sequences longer than MAX_KEYPRESS_SIZE. non-trivial = distinct (operation, encoding, mode, full, bytes) with at least 2 bytes or a "
         "non-ASCII byte")
 ASSUMPTIONS = ["bytes objects hold values < 256 (the model's List Nat is used on such values only)",
                "encodings are the three the property names: utf-8, ascii, latin-1",
-               "under utf-8 a single-byte 8-bit Meta key counts as recognised only when it ends a read (property text)",
+               "under utf-8 a single-byte 8-bit Meta key whose value is a UTF-8 lead byte (C0..FD) counts as recognised only "
+               "when it ends a read (property text); 80..BF, FE, FF are recognised anywhere",
+               "READING: 'never merged with what follows unless it is also the beginning of a longer recognised sequence' - "
+               "after a key that is itself a KEYMAP_PREFIXES member (ESC, ESC ESC, ESC O, ESC [) has merged with what "
+               "follows, which the text licenses, nothing is claimed about the table sequence that followed it (e.g. "
+               "1b5b 1b5b41 -> '\\x1b[\\x1b', '[', 'A'); those (u, v) pairs are counted in the distribution under "
+               "'table sequence after a key that is also a prefix'",
+               "READING: 'reports every character as itself' is judged for characters whose encoding is not itself a table "
+               "key; the others (control characters, space, DEL; under latin-1 all of 0x80-0xFF, 162 of 256 characters in "
+               "all) are reported under their table name (<Meta-...>), which is checked as a table sequence "
+               "(theorem C03_chars_table_key)",
+               "'asks for more input only while ...' is judged on prefixes of input made of recognised sequences and valid "
+               "characters (theorem C03_waits_only_when_growable); on other bytes (e.g. E0 41) the decoder may wait "
+               "without a possible completion - outside the property's domain",
                "the isinstance(bytes) TypeError guard of get_key is outside the model (inputs are bytes)"]
 TRUSTED = ["Spec/Utf8.lean: strict UTF-8 as CPython decodes it (tied to bytes.decode on every tree node and every "
            "scalar value sampled; all scalar values in the thorough tier)"]
@@ -46,11 +59,23 @@ def impl(c):
     raise KeyError(op)
 
 
+TREE_CAPS = {"ascii": 60000, "latin1": 60000, "utf8": 250000}       # expected: 11 776 / 11 776 / 45 828 nodes
+TREE_CAPS_THOROUGH = {"ascii": 60000, "latin1": 60000, "utf8": 8000000}
+
+
 def trees(ctx):
     out = {}
     for enc in ENCS:
         fan = kc.fan_full if enc != "utf8" else (kc.fan_utf8_thorough if ctx.thorough else kc.fan_utf8_quick)
-        nodes, nwait = kc.tree(enc, fan)
+        cap = (TREE_CAPS_THOROUGH if ctx.thorough else TREE_CAPS)[enc]
+        try:
+            nodes, nwait = kc.tree(enc, fan, max_nodes=cap)
+        except kc.TreeTooLarge as t:
+            ctx.violation("the decoder keeps asking for more input: its decision tree under %s exceeds %d nodes "
+                          "(expected %s)" % (enc, t.count, "about a fifth of that"),
+                          ("getkey", enc, "curtsies", 0, hx(t.node)), None)
+            out[enc] = []
+            continue
         out[enc] = nodes
         ctx.exhaustive.append("decision tree %s: %d nodes below %d waiting nodes (x 2 full x 3 modes)" % (enc, len(nodes), nwait + 1))
     return out
@@ -82,7 +107,7 @@ def units_for(enc):
     """recognised sequences and characters for random streams: (units usable anywhere, units usable only last)"""
     anywhere, last = [], []
     for k in TABLE_KEYS:
-        if enc == "utf8" and len(k) == 1 and k[0] >= 0x80:
+        if enc == "utf8" and len(k) == 1 and 0xc0 <= k[0] <= 0xfd:     # collides with a UTF-8 lead byte
             last.append(k)
         else:
             anywhere.append(k)
@@ -135,7 +160,7 @@ def unit_ends(seq, enc, at_end_of_read):
             piece = seq[i:i + n]
             if len(piece) < n:
                 break
-            if piece in kc.TABLE_SET and not (enc == "utf8" and n == 1 and piece[0] >= 0x80
+            if piece in kc.TABLE_SET and not (enc == "utf8" and n == 1 and 0xc0 <= piece[0] <= 0xfd
                                               and not (at_end_of_read and i + 1 == len(seq))):
                 reach.add(i + n)
             if n <= 4:
@@ -186,7 +211,7 @@ def oracle_table(enc, u, rest, rest_is_units, modes=tuple(MODES)):
     """a recognised sequence u arriving whole, followed by rest; -> list of (what, footprint)"""
     bad = []
     longer = kc.is_table_prefix(u)                       # u is also the beginning of a longer recognised sequence
-    collide = enc == "utf8" and len(u) == 1 and u[0] >= 0x80 and rest   # 8-bit Meta key not ending the read
+    collide = enc == "utf8" and len(u) == 1 and 0xc0 <= u[0] <= 0xfd and rest   # lead-byte-valued Meta key not ending the read
     if collide:
         return bad
     # proper prefixes: the decoder must wait (more bytes are buffered)
@@ -246,7 +271,6 @@ def oracle_stream(enc, units, kind):
     """whole stream: no byte lost, duplicated or reordered; never fails on recognised input"""
     bad = []
     buf = b"".join(units)
-    cuts = {}
     for mode in MODES:
         try:
             ps = kc.segment(buf, enc, mode)
@@ -254,13 +278,14 @@ def oracle_stream(enc, units, kind):
             if kind == "units":
                 bad.append(("decoding failed with %s on input made of recognised sequences and valid characters"
                             % type(f.exc).__name__, "D12" if is_d12(enc, f.exc, f.at) else None))
-            cuts[mode] = "raise"
             continue
         if b"".join(c for _, c in ps) != buf or any(not c for _, c in ps):
             bad.append(("bytes lost, duplicated or reordered over a whole stream", None))
-        if mode == "bytes" and b"".join(k for k, _ in ps) != buf:
-            bad.append(("bytes naming over a whole stream does not give the stream back", None))
-        cuts[mode] = [len(c) for _, c in ps]
+        if mode == "bytes":
+            if not all(isinstance(k, bytes) for k, _ in ps):
+                bad.append(("bytes naming returned something that is not bytes", None))
+            elif b"".join(k for k, _ in ps) != buf:
+                bad.append(("bytes naming over a whole stream does not give the stream back", None))
     return bad
 
 
@@ -323,6 +348,16 @@ def check(ctx, search=False):
         for it, b in zip(items, kc.par_map(w_node, items, procs)):
             if b:
                 report(ctx, b, ("getkey", it[0], "curtsies", int(it[2]), hx(it[1])))
+    # ---- tie 1b: sequences longer than MAX_KEYPRESS_SIZE (get_key's ValueError guard) ---------------------------
+    M = ev.MAX_KEYPRESS_SIZE
+    longs = [b"a" * (M + 1), b"a" * (M + 2), b"\x1b[1;10" + b"A" * (M - 5), b"\x1b" * (M + 1), b"\xe2\x82\xac" * 3,
+             b"\xff" * (M + 1), bytes(range(0x41, 0x41 + M + 2)), b"\x1b[1;10A"[:M] + b"~", b"\xf0\x9f\x98\x80" * 2 + b"\x80"]
+    assert all(len(x) > M for x in longs)
+    cases = [("getkey", enc, mode, full, hx(x)) for x in longs for enc in ENCS for mode in MODES for full in (0, 1)]
+    if not search:
+        ctx.tie("C03/getkey-too-long", cases, line, impl)
+    for c in cases:
+        ctx.count(c, nontrivial=True, tag="getkey-longer-than-max")
     # ---- tie 2 + table oracle: every table sequence alone / x every next byte / x table sequences ------------
     ntab = 0
     r = ctx.rng
@@ -340,6 +375,9 @@ def check(ctx, search=False):
                 for mode in modes:
                     cases.append(("findkey", enc, mode, 0, hx(u + rest)))
                 items.append((enc, u, rest, is_units, modes))
+                if len(rest) > 0 and rest in kc.TABLE_SET and kc.is_table_prefix(u):
+                    # reading (ASSUMPTIONS): u merges with what follows; nothing is claimed about `rest` then
+                    ctx.dist["table sequence after a key that is also a prefix (merge licensed, nothing claimed about it)"] += 1
         ntab += len(items)
         if not search:
             par_tie(ctx, "C03/findkey-table-" + enc, cases, procs)
@@ -386,7 +424,7 @@ def check(ctx, search=False):
         if b:
             report(ctx, b, ("segment", it[0], "curtsies", 0, hx(b"".join(it[1]))))
     # ---- the transcribed find_key loop against the real closure inside Input._send ---------------------------
-    items = [(enc, b"".join(units), mode) for enc, units, kind in streams[::5] for mode in MODES]
+    items = [(enc, b"".join(units), mode) for enc, units, kind in streams for mode in MODES]
     res = kc.par_map(w_e2e, items, procs, chunksize=100)
     bad = [(it, d) for it, d in zip(items, res) if d]
     for it, d in bad[:3]:
